@@ -11,8 +11,15 @@ func emitMulti(c *runCfg, class string, cases []*caseT, schedule []int, free boo
 	for _, cs := range cases {
 		cs.class = class
 	}
+	if hangTotal.Load() >= maxHangs {
+		c.stat("skipped_after_hangs")
+		return
+	}
 	obs := runMulti(cases, schedule, free)
 	for i, cs := range cases {
+		if obs[i].hang {
+			hangTotal.Add(1)
+		}
 		if free {
 			cs.lock = false
 		}
